@@ -183,8 +183,8 @@ def run(ctx):
         res.count("stack-fault:%s" % sc.fault)
     # exhaustive interleavings of small scenarios (one subroutine): every merge of the instruction
     # sequence with the per-queue response sequences; counted as complete when not cut by the cap
-    n_small = 45 if ctx.thorough else 6
-    cap = 2500 if ctx.thorough else 300
+    n_small = 36 if ctx.thorough else 6
+    cap = 2000 if ctx.thorough else 300
     for i in range(n_small):
         if len(res.failures) >= MAX_FAILURES:
             break
